@@ -25,7 +25,57 @@ def long_poll(ctx, info, rng, *rest):
                                                   "calls": ["(set-up: enqueue / lease with ttl 50 ms / nack with delay 50 ms)", "clock +20 ms", "Dequeue(batch 5, max_wait 600 ms) starts",
                                                             "40 ms later: clock +1 s (lease expires / delay matures) or Enqueue"]},
                       "observed": r})
-    return {"long_poll": {"cases": len(rows), "waited_ms": {"%s:%s" % (r["backend"], r["scenario"]): r["waited_ms"] for r in rows}}}
+    # the same four situations on Model/LongPoll.v: an attempt on entry (clock +20 ms) and one after the change, the deadline attempt last
+    body = """From Coq Require Import ZArith List NArith.
+From HK Require Import Model.Queue Model.LongPoll.
+Import ListNotations.
+Open Scope Z_scope.
+Definition c0 := mkCfg 0 false 0 0 0 0 0 0.
+Definition o0 := mkOracle [] [] [] [].
+Definition ms := 1000000.
+Definition b := 1700000000000000000.
+Definition e1 := mkEnq (Some 1%N) 1 1 None None 0 0 0.
+Definition e2 := mkEnq (Some 2%N) 1 1 None None 0 0 0.
+Definition pre (fl : flavour) (k : nat) : state :=
+  snd (run fl c0 init (match k with
+    | O => [(Enqueue b e1, o0); (Dequeue b (Some 1%N) (Some 1%N) 1 (50 * ms), mkOracle [(1%N, 9%N)] [] [] [])]
+    | S O => [(Enqueue b e1, o0); (Dequeue b (Some 1%N) (Some 1%N) 1 (60000 * ms), mkOracle [(1%N, 9%N)] [] [] []);
+              (LeaseOp b (KNack (50 * ms)) (LKnown 9%N false), o0)]
+    | _ => [] end)).
+Definition ats (k : nat) : list attempt :=
+  match k with
+  | O | S O => [mkAttempt [] (b + 20 * ms) o0; mkAttempt [] (b + 1000 * ms) (mkOracle [(1%N, 10%N)] [] [] []); mkAttempt [] (b + 1600 * ms) o0]
+  | S (S O) => [mkAttempt [] (b + 20 * ms) o0; mkAttempt [(Enqueue (b + 20 * ms) e2, o0)] (b + 20 * ms) (mkOracle [(2%N, 10%N)] [] [] []); mkAttempt [] (b + 620 * ms) o0]
+  | _ => [mkAttempt [] (b + 20 * ms) o0; mkAttempt [] (b + 45 * ms) o0; mkAttempt [] (b + 620 * ms) o0]
+  end.
+Definition count (r : option res) : Z := match r with Some (RItems l) => Z.of_nat (length l) | _ => -1 end.
+Definition R := Eval vm_compute in
+  map (fun fl => map (fun k => (count (snd (long_poll fl c0 (Some 1%N) (Some 1%N) 5 (60000 * ms) (pre fl k) (ats k))),
+                                Z.of_nat (attempts_made fl c0 (Some 1%N) (Some 1%N) 5 (60000 * ms) (pre fl k) (ats k)))) [0; 1; 2; 3]%nat) [Mem; Sql].
+Print R.
+"""
+    model = None
+    if info.get("coq_ok"):
+        crc, cout = C.coq_eval_cases(ctx, "c05longpoll", body, timeout=300)
+        pairs = __import__("re").findall(r"\((-?\d+),\s*(-?\d+)\)", " ".join(cout.split())) if crc == 0 else []
+        if len(pairs) == 8:
+            model = [(int(a), int(b_)) for a, b_ in pairs]
+        else:
+            ctx.notes.append("long-poll model evaluation failed: " + cout[-400:])
+    mism = 0
+    if model is not None:
+        order = ["lease-expires", "nack-delay-matures", "enqueued", "nothing-becomes-ready"]
+        for r in rows:
+            k = order.index(r["scenario"]) + (0 if r["backend"] == "memory" else 4)
+            m_items, m_attempts = model[k]
+            if not r.get("err") and r["items"] != m_items:
+                mism += 1
+                C.report(ctx, "long-poll-model:%s:%s" % (r["backend"], r["scenario"]),
+                         "the waiting dequeue returned %d item(s); Model/LongPoll.v (attempt on entry, attempt after the change, deadline attempt) returns %d after %d attempts" %
+                         (r["items"], m_items, m_attempts), {"kind": "history", "case": {"backend": r["backend"], "scenario": r["scenario"]}, "observed": r,
+                                                            "expected": {"items": m_items, "attempts": m_attempts}})
+    return {"long_poll": {"cases": len(rows), "waited_ms": {"%s:%s" % (r["backend"], r["scenario"]): r["waited_ms"] for r in rows},
+                          "model": model, "model_mismatches": mism}}
 
 
 def bulk_ready(ctx, info, rng):
@@ -69,4 +119,4 @@ def extras(ctx, info, rng, *rest):
 
 
 def main(ctx, replay):
-    return queuefam.run_property(ctx, "C05", 150, 3000, extra=extras)
+    return queuefam.run_property(ctx, "C05", 150, 3000, extra=extras, extra_prop_files=("C05poll",))
